@@ -35,10 +35,17 @@ def _request(rm, a):
         return False, None, type(e).__name__, isinstance(e, ResourceError)
 
 
-def _new_manager(table):
+def _new_manager(table, objs=None):
     from amaranth.build.res import ResourceManager
-    resources, connectors = G.build_objects(table)
+    resources, connectors = objs if objs is not None else G.build_objects(table)
     return ResourceManager(resources, connectors)
+
+
+def _has_special_attrs(node):
+    """None-valued / callable attributes are rewritten by the code under test: such tables get fresh DSL objects per run"""
+    if any(v is None or isinstance(v, dict) for v in (node.get("attrs") or {}).values()):
+        return True
+    return node["kind"] == "group" and any(_has_special_attrs(s["node"]) for s in node["subs"])
 
 
 def _check_port(port, leaf, pins, errs, where):
@@ -126,12 +133,12 @@ def _depth(name, cmap):
     return d
 
 
-def run_history(table, history, rm=None, on_grant=None):
+def run_history(table, history, rm=None, on_grant=None, objs=None, static=None):
     """Run one history on a fresh manager in lock step with the reference.
     -> dict(steps, keys, flags, mismatch (None | dict), port_errs [(step, [..])])"""
-    ref = R.RefAlloc(table)
+    ref = R.RefAlloc(table, static)
     if rm is None:
-        rm = _new_manager(table)
+        rm = _new_manager(table, objs)
     out = {"steps": 0, "keys": [ref.key()], "flags": set(), "mismatch": None, "port_errs": [], "ports": 0}
     flags = out["flags"]
     refused = []           # (pins of the refused request, reason)
@@ -144,10 +151,7 @@ def run_history(table, history, rm=None, on_grant=None):
             return out
         k = (a["name"], a["number"])
         if ok:
-            mine = set()
-            for _p, leaf in R.leaves(ref.res[k]["node"]):
-                for lst in R.leaf_pins(leaf, ref.cmap).values():
-                    mine.update(lst)
+            mine = set(ref.pins[k])
             for pins, reason in refused:
                 if pins & mine:
                     flags.add("grant-after-refused:" + reason)
@@ -164,11 +168,7 @@ def run_history(table, history, rm=None, on_grant=None):
                       "connector pin does not exist": "dangling", "xdr > 2": "xdr"}.get(why, "conflict")
             flags.add("either:refused" if verdict == R.EITHER else "refuse:" + reason)
             if k in ref.res:
-                pins = set()
-                for _p, leaf in R.leaves(ref.res[k]["node"]):
-                    for lst in R.leaf_pins(leaf, ref.cmap).values():
-                        pins.update(p for p in lst if p is not None)
-                refused.append((pins, reason))
+                refused.append(({p for p in ref.pins[k] if p is not None}, reason))
         out["keys"].append(ref.key())
     return out
 
@@ -197,9 +197,11 @@ def w_histories(task):
         acts = _actions_for(fam, table, quick)
         cov["tables"] += 1
         keys, seen_prefix, nv = set(), set(), 0
+        static = R.RefAlloc.prepare(table)
+        objs = None if any(_has_special_attrs(r["node"]) for r in table["resources"]) else G.build_objects(table)
         for idx in itertools.product(range(len(acts)), repeat=L):
             hist = [acts[i] for i in idx]
-            r = run_history(table, hist)
+            r = run_history(table, hist, objs=objs, static=static)
             cov["histories"] += 1
             cov["transitions"] += r["steps"]
             cov["port_objects_checked"] += r["ports"]
@@ -457,9 +459,11 @@ def w_e2e(task):
 
 # ------------------------------------------------------------------ driver
 def _dispatch(t):
-    if t[0] == "hist":
-        return ("hist:" + t[1][0], w_histories(t[1]))
-    return ("e2e:" + t[1][0], w_e2e(t[1]))
+    import time
+    t0 = time.process_time()
+    tag, part = ("hist:" + t[1][0], w_histories(t[1])) if t[0] == "hist" else ("e2e:" + t[1][0], w_e2e(t[1]))
+    part["cpu"] = time.process_time() - t0
+    return tag, part
 
 
 def _self_test():
@@ -476,7 +480,11 @@ def families(rep):
     fam = {}
     s1 = G.structures(1, G.SHAPES)
     s2 = G.structures(2, G.SHAPES)
-    s3 = G.structures(3, ["P1", "G11"] if q else ["P1", "P2", "D1", "G11", "G12", "N"])
+    if q:
+        s3 = G.structures(3, ["P1", "G11"])
+    else:
+        s3 = G.structures(3, ["P1", "P2", "D1", "G11", "G12"]) + \
+             [s for s in G.structures(3, ["P1", "G1D", "N"]) if any(sh in ("G1D", "N") for sh, _ in s)]
     structs = s1 + s2 + s3
     fam["S"] = ([G.s_table(s, i) for i, s in enumerate(structs)], 3)
     s3small = G.structures(3, ["P1", "G11"])
@@ -488,11 +496,11 @@ def families(rep):
     fam["X"] = (G.x_tables(), 3)
     # end to end: 1-/2-resource structures and the 3-resource ones over P1/G11 (every permutation of every subset of
     # the resources), plus decoration tables (clocks / attrs / connector depth / inversion; permutations of <=2 of
-    # r and its probes). The quick tier takes every 6th / 200th table of these lists (fixed stride, no randomness).
+    # r and its probes). The quick tier takes every 8th / 300th table of these lists (fixed stride, no randomness).
     e_structs = s1 + s2 + s3small
     e_tables = [(G.s_table(s, i + 1), 3) for i, s in enumerate(e_structs)]
     e_d1 = [(t, 2) for t in d1]
-    fam["E"] = (e_tables[::6] + e_d1[::200] if q else e_tables + e_d1[::10], None)
+    fam["E"] = (e_tables[::8] + e_d1[::300] if q else e_tables + e_d1[::20], None)
     return fam
 
 
@@ -505,18 +513,19 @@ def run(rep):
             continue
         tables, L = fam[name]
         f = "S" if name == "S4" else name
-        per = {"S": 40, "S4": 6, "D1": 200, "D2": 1, "X": 4}[name]
+        per = {"S": 8, "S4": 2, "D1": 100, "D2": 1, "X": 4}[name]
         for ch in chunks(tables, per):
             tasks.append(("hist", (f, ch, L, rep.quick)))
     e_tables, _ = fam["E"]
     for kind in PLATFORMS:
-        for ch in chunks(e_tables, 6):
+        for ch in chunks(e_tables, 3):
             tasks.append(("e2e", (kind, ch, True)))
     tasks = rotate(tasks, rep.seed)
     allflags, by_family, viols, samples = set(), {}, [], {}
     for tag, part in pmap(_dispatch, tasks, rep.procs):
         allflags.update(part.pop("flags"))
         d = by_family.setdefault(tag, {})
+        d["cpu_s"] = round(d.get("cpu_s", 0) + part.pop("cpu"), 1)
         for k, v in part["cov"].items():
             d[k] = d.get(k, 0) + v
         viols += part.pop("violations")
